@@ -179,6 +179,114 @@ class SymbolDecorator(LibModel):
         return {}
 
 
+class SymbolicNew(ModeMixin, LibModel):
+    """symbol.<locals>.symbolic_new(symbolic_cls, *args, **kwargs) - C13 (a term T(...) ranges over instances of T, T being
+    the class that was CALLED, which for an undecorated subclass is not the class the decorator saw): every callee that
+    takes the class - update_domain_and_kwargs_from_args, Variable, index_class_cache, extract_selected_variable_and_expression -
+    receives `symbolic_cls`, never the decorator's closure variable `cls`; the domain and the field constraints that
+    update_domain_and_kwargs_from_args returns are the ones passed on."""
+    qual = 'predicate:symbol.<locals>.symbolic_new'
+    cls = None
+    props = ('C13', 'C14')
+    modes = ('sound',)
+    trusted = ("the callees are summarised by what they are given (their own contracts: update_domain_and_kwargs_from_args, "
+               "extract_selected_variable_and_expression); issubclass is Python's (A2)",)
+    CLASS_TAKERS = ('update_domain_and_kwargs_from_args', 'Variable', 'index_class_cache', 'extract_selected_variable_and_expression',
+                    'issubclass')
+
+    def modenv(self):
+        env = super().modenv()
+        for f in ('bind_first_argument_of_predicate_if_in_query_context', 'update_domain_and_kwargs_from_args', 'index_class_cache',
+                  'update_query_child_expression_if_in_query_context', 'extract_selected_variable_and_expression', 'issubclass'):
+            env[f] = C(Ref('func', f))
+        env['cls'] = Obj('decorated_class', {})
+        env['Predicate'] = C(Ref('class', 'Predicate'))
+        return env
+
+    def setup(self, eng):
+        sts = []
+        for is_pred in (False, True):
+            st = State()
+            st.ghost['mode'] = z3.Const('mode_now', Mode)
+            st.assume(MODE_DISTINCT)
+            st.ghost['stack_top'] = z3.Const('stack_top', Z.Node)
+            st.locals['symbolic_cls'] = Obj('theclass', {})
+            st.locals['args'] = Obj('argpack', {})
+            st.locals['kwargs'] = Obj('kwpack', {})
+            st.ghost['calls'] = []
+            st.ghost['is_pred'] = is_pred
+            st.path.append(f"predicate class={is_pred}")
+            sts.append(st)
+        return sts
+
+    def accepts_star(self, f):
+        return True
+
+    def getattr(self, eng, st, recv, name):
+        if isinstance(recv, Obj) and recv.kind in ('theclass', 'decorated_class') and name == '__name__':
+            return [(st, Obj('name_of', {'of': recv.kind}))]
+        if isinstance(recv, C) and isinstance(recv.v, Ref) and recv.v.name == 'SymbolicExpression' and name == '_current_parent_':
+            return [(st, C(Ref('func', 'current_parent')))]
+        return super().getattr(eng, st, recv, name)
+
+    def obj_truth(self, eng, st, v):
+        if v.kind in ('domain', 'expression'):
+            return z3.Bool('has_' + v.kind)
+        return None
+
+    def call(self, eng, st, f, args, kwargs, node):
+        if isinstance(f, C) and isinstance(f.v, Ref):
+            nm = f.v.name
+            if nm == 'issubclass':
+                st = st.clone()
+                st.ghost['calls'] = st.ghost['calls'] + [(nm, [HybridNew.tag(a) for a in args], [])]
+                return [(st, C(st.ghost['is_pred']))]
+            if nm == 'current_parent':
+                return [(st, ZV(st.ghost['stack_top'], 'optnode'))]
+            if nm in ('bind_first_argument_of_predicate_if_in_query_context', 'update_domain_and_kwargs_from_args', 'index_class_cache',
+                      'update_query_child_expression_if_in_query_context', 'extract_selected_variable_and_expression',
+                      'Variable', 'An', 'Entity'):
+                st = st.clone()
+                st.ghost['calls'] = st.ghost['calls'] + [(nm, [HybridNew.tag(a) for a in args],
+                                                         sorted((k, HybridNew.tag(v)) for k, v in kwargs.items()))]
+                if nm == 'update_domain_and_kwargs_from_args':
+                    return [(st, Tup([Obj('domain', {}), Obj('fields', {})]))]
+                if nm == 'extract_selected_variable_and_expression':
+                    return [(st, Tup([Obj('variable', {}), Obj('expression', {})]))]
+                if nm == 'bind_first_argument_of_predicate_if_in_query_context':
+                    return [(st, Obj('argpack2', {}))]
+                return [(st, Obj('result', {'of': nm}))]
+        return super().call(eng, st, f, args, kwargs, node)
+
+    def on_exit(self, eng, o):
+        st = o.st
+        if o.sig != RETURN:
+            eng.oblige(st, "C13/symbolic_new/returns", z3.BoolVal(False))
+            return
+        calls = st.ghost['calls']
+        takers = [c for c in calls if c[0] in self.CLASS_TAKERS]
+        given = [t for c in takers for t in c[1] + [v for _, v in c[2]] if t in ('theclass', 'decorated_class')]
+        eng.oblige(st, "C13/symbolic_new/every-callee-gets-the-class-that-was-called-not-the-decorated-one",
+                   z3.BoolVal(bool(given) and all(t == 'theclass' for t in given) and
+                              all('theclass' in c[1] + [v for _, v in c[2]] for c in takers)))
+        upd = [c for c in calls if c[0] == 'update_domain_and_kwargs_from_args']
+        eng.oblige(st, "C13/symbolic_new/the-arguments-are-split-once-into-domain-and-field-constraints", z3.BoolVal(len(upd) == 1))
+        ext = [c for c in calls if c[0] == 'extract_selected_variable_and_expression']
+        var = [c for c in calls if c[0] == 'Variable']
+        eng.oblige(st, "C13/symbolic_new/exactly-one-of-the-two-constructions", z3.BoolVal(len(ext) + len(var) == 1))
+        if ext:
+            c = ext[0]
+            eng.oblige(st, "C13/symbolic_new/the-explicit-form-gets-that-domain-and-those-field-constraints",
+                       z3.BoolVal(c[1][:2] == ['theclass', 'domain'] and ('**', 'fields') in c[2]))
+        if var:
+            c = var[0]
+            eng.oblige(st, "C13/symbolic_new/the-inferred-variable-gets-those-field-constraints",
+                       z3.BoolVal(('_kwargs_', 'fields') in c[2] and 'theclass' in c[1]))
+
+    def signature(self, ob, model):
+        return {}
+
+
 class InstantiateAndRegister(LibModel):
     qual = 'predicate:instantiate_class_and_update_cache'
     cls = None
@@ -211,6 +319,14 @@ class InstantiateAndRegister(LibModel):
             st.ghost['inserts'] = []
             sts.append(st)
         return sts
+
+    def obj_truth(self, eng, st, v):
+        # the constructor's arguments are arbitrary: there may be none at all (a construction from defaults alone)
+        if v.kind == 'argpack':
+            return z3.Bool('some_positional_argument')
+        if v.kind == 'kwpack':
+            return z3.Bool('some_keyword_argument')
+        return None
 
     def getattr(self, eng, st, recv, name):
         if isinstance(recv, C) and recv.v == Ref('class', 'Variable') and name == '_cache_':
@@ -350,4 +466,4 @@ class CacheKeysForClass(LibModel):
         return {}
 
 
-CONTRACTS = [HybridNew, SymbolDecorator, InstantiateAndRegister, CacheKeysForClass]
+CONTRACTS = [HybridNew, SymbolDecorator, SymbolicNew, InstantiateAndRegister, CacheKeysForClass]
